@@ -947,9 +947,10 @@ class XsdElement(XsdComponent, ParticleMixin,
                 fields = tuple(
                     s.get_value(element_node, context.namespaces) for s in selectors
                 )
-            except (ValueError, TypeError) as err:
+            except (ValueError, TypeError, OverflowError) as err:
                 # Includes XMLSchemaValueError/XMLSchemaTypeError and the errors of the
-                # XPath processor, e.g. for a malformed xsi:type on a selected element.
+                # XPath processor, e.g. for a malformed xsi:type on a selected element
+                # or for a date/time field value out of the supported range.
                 context.validation_error(validation, self, err, obj)
             else:
                 # Only the nodes for which all the fields evaluate to a value belong
